@@ -17,6 +17,13 @@ Proof. intros [] [] []; reflexivity. Qed.
 Lemma leak_raises_spec : forall ne, leak_raises ne = ne.
 Proof. intros []; reflexivity. Qed.
 
+(* from here on the generated functions are only used through the facts above *)
+Arguments init_registers : simpl never.
+Arguments use_raises : simpl never.
+Arguments use_pops : simpl never.
+Arguments upd_registers : simpl never.
+Arguments leak_raises : simpl never.
+
 (* ---------------------------------------------------------------------------- dict lemmas *)
 Lemma dict_mem_In : forall id l, dict_mem id l = true <-> In id l.
 Proof.
@@ -139,7 +146,7 @@ Proof.
   destruct (0 <? uses r j) eqn:Us; simpl.
   - apply Nat.ltb_lt in Us. destruct (copyable k) eqn:C; simpl.
     + (* copyable, used before: droppable, no pop *)
-      rewrite (W eq_refl). simpl. split; [exists k; auto|].
+      rewrite (W C). simpl. split; [exists k; auto|].
       split_inv; simpl in *.
       * exact N.
       * unfold upd. destruct (id =? j) eqn:Ej.
